@@ -50,7 +50,8 @@ func (l SeenLogical) Text(ns string, query string) string {
 var seenHosts = []string{"example.com", "cdn.site.net"}
 var seenPaths = []string{"/", "/a", "/img/x.png", "/dir/index.html", "/v1/a-b/~u", "/style.css"}
 var seenKeys = []string{"a", "b", "q", "id", "k k", "é", "x.y", "utm_source", "v"}
-var seenVals = []string{"1", "2", "", "x y", "é", "a&b", "a=b", "100%", "A_B-c~d", "http://e.com/?a=1", "1,2", "12:30", "x+y", "12345"}
+// (the last value makes the URL longer than 2 KiB: signed / tokenised CDN links)
+var seenVals = []string{strings.Repeat("t0k3n", 500), "1", "2", "", "x y", "é", "a&b", "a=b", "100%", "A_B-c~d", "http://e.com/?a=1", "1,2", "12:30", "x+y", "12345"}
 
 func seenPairGen(t *rapid.T, label string) SeenPair {
 	return SeenPair{K: pick(t, label+".k", seenKeys), V: pick(t, label+".v", seenVals)}
